@@ -12,7 +12,7 @@ def build(tier, seed):
             'assumptions': [
                 'A1 reals for floats: t[-1]-t[i] and (T-1-i)*dt are equal over the reals (they differ in the last ulp in floats)',
                 'A3 torch contracts (indexing, cummax vs max over a prefix as the same big operator, cat, Module.__call__ hook order, register_buffer)',
-                'per-feature identities hold for every step i and every T, N (symbolic); hedger-level statements use an uninterpreted point-wise model, symbolic N, and T, H enumerated: (H,T) in {(1,2),(1,3),(2,3)} for batched==stepwise and {(1,3),(2,3),(3,2)} for the prev_hedge flow (more in the thorough tier)',
+                'per-feature identities hold for every step i and every T, N (symbolic); hedger-level statements use an uninterpreted point-wise model and symbolic N; for EVERY T (H in {1,2}) by cutting the step loop of compute_hedge: invariant prev_output == the last output (zeros (N,1,H) before step 0) gives the prev_hedge flow, invariant outputs[k] == column k of the all-at-once hedge gives batched == stepwise (VCs with running-max binders under a quantifier are decided by explicit instantiation, fc.prove_inst); the enumerated runs (H,T) in {(1,2),(1,3),(2,3)} / {(1,3),(2,3),(3,2)} (more in the thorough tier) are kept as a second route and for the aliasing model',
                 'Empty is excluded from value equality (uninitialised by contract)',
             ],
             'level': 'proof', 'trusted_base': ['pfv executor + torch shim', 'z3 LIA/LRA/UF with max/min axioms'],
